@@ -10,6 +10,7 @@ CONSTANTS
   Rts = {}
   Lbs = {}
   HostSets = {}
+  Attrs = {"a1", "a2"}
   LocLists = {}
   Defects = {}
 SPECIFICATION TraceSpec
